@@ -46,7 +46,7 @@ def generate(tier, seed, shard, nshards):
     rng = random.Random(f'C15/{seed}/{shard}')
     for _ in range(N_PROG[tier] // nshards):
         prog, family = make_program(rng)
-        yield {'kind': 'roundtrip', 'program': prog, 'family': family, 'cycles': rng.randint(1, 5), 'via_file': rng.random() < 0.3}
+        yield {'kind': 'roundtrip', 'program': prog, 'family': family, 'cycles': rng.randint(1, 5), 'via_file': rng.random() < 0.3, 'seed': rng.getrandbits(8)}
     for _ in range(N_DECL[tier] // nshards):
         yield {'kind': 'declarative', 'seed': rng.getrandbits(32)}
 
@@ -121,6 +121,14 @@ def judge(case, ctx, prefix='C15'):
         if raised(nxt):
             ctx.violation(f'{prefix}/round-trip-raised/{stage}/{nxt.key}', f'save/load cycle {k} raised {nxt.text} (symbols {syms!r})', {})
             return
+        if (case.get('seed', 0) + k) % 2 == 0:
+            # what comes back is a drawing: it can be rendered (and is then read like any rendered drawing)
+            rr = call(lambda: nxt.draw(show=False))
+            ctx.count('reloaded_drawings_rendered')
+            if raised(rr):
+                kinds = sorted({s['sym'] for s in prog['symbols']})
+                ctx.violation(f'{prefix}/reloaded-drawing-cannot-be-rendered/{stage}/{rr.key}', f'after cycle {k}: draw() raised {rr.text} (symbols {kinds!r})', {})
+                return
         ck = call(circuit_translator, nxt)
         if raised(ck):
             ctx.violation(f'{prefix}/reloaded-drawing-untranslatable/{stage}/{ck.key}', f'after cycle {k}: {ck.text}', {})
